@@ -83,10 +83,13 @@ inductive Op where
   | modeSet (m : Nat)                   -- the tracked open(2)-flags variable of this activation := m  (relevant bits only)
   | modeOr (m : Nat)                    -- … |= m
   | modeUpd (keep : Nat) (or : Nat)     -- … := (… &&& keep) ||| or   (assignment to one of two variables packed in the word)
-  | assertMd (shift : Nat)              -- call of janet_sandbox_assert with the tracked *mask variable* (`md >>> shift`):
+  | assertMd (shift : Nat)              -- call of janet_sandbox_assert with the tracked *mask variable* (32 bits at `shift`):
                                         -- `x = 0; x |= C1; if (…) x |= C2; janet_sandbox_assert(x)`
   | modeGuard (v : Nat) (eq : Bool)     -- control passes only when `(md == v) == eq`: one arm of `p ? A : B` where `p` is the
                                         -- tracked parameter (`Cap.paramModes`)
+  | modeTest (mask v : Nat) (eq : Bool) -- control passes only when `((md &&& mask) == v) == eq`: one edge of a conditional
+                                        -- branch `if (x)` / `if (x == K)` on a tracked *guard variable* `x` (an int local that
+                                        -- is only ever assigned constants; it lives in the bit field `mask` of the word)
   deriving Repr, DecidableEq
 
 structure Node where
@@ -156,10 +159,13 @@ inductive Ex : Bool → Nat → Nat → Nat → Nat → Nat → Nat → Prop
       Ex false s F (md ||| m) n' F' md' → Ex false n F md n' F' md'
   | modeUpd {n F md s n' F' md' kp o} : n < G.size → (G.node n).op = .modeUpd kp o → s ∈ (G.node n).succs →
       Ex false s F ((md &&& kp) ||| o) n' F' md' → Ex false n F md n' F' md'
-  | assertMd {n F md s n' F' md' sh} : n < G.size → (G.node n).op = .assertMd sh → assertPasses F (md >>> sh) = true →
+  | assertMd {n F md s n' F' md' sh} : n < G.size → (G.node n).op = .assertMd sh →
+      assertPasses F ((md >>> sh) &&& 4294967295) = true →
       s ∈ (G.node n).succs → Ex false s F md n' F' md' → Ex false n F md n' F' md'
   | modeGuard {n F md s n' F' md' v eq} : n < G.size → (G.node n).op = .modeGuard v eq → ((md == v) == eq) = true →
       s ∈ (G.node n).succs → Ex false s F md n' F' md' → Ex false n F md n' F' md'
+  | modeTest {n F md s n' F' md' k v eq} : n < G.size → (G.node n).op = .modeTest k v eq →
+      (((md &&& k) == v) == eq) = true → s ∈ (G.node n).succs → Ex false s F md n' F' md' → Ex false n F md n' F' md'
   | havoc {n F md F1 s n' F' md'} : n < G.size → (G.node n).op = .havoc → Ex true 0 F 0 0 F1 0 →
       s ∈ (G.node n).succs → Ex false s F1 md n' F' md' → Ex false n F md n' F' md'
   | call {n F md g m0 r F1 mdr s n' F' md'} : n < G.size → (G.node n).op = .call g m0 →
@@ -196,8 +202,9 @@ def caseOK (need : String → String → Nat → List Nat) (G : Graph) (C : Cert
   | .modeSet x => nd.succs.all (fun s => cover (C.k s) x (fun g' => imp g' gs))
   | .modeOr x => nd.succs.all (fun s => cover (C.k s) (m ||| x) (fun g' => imp g' gs))
   | .modeUpd kp o => nd.succs.all (fun s => cover (C.k s) ((m &&& kp) ||| o) (fun g' => imp g' gs))
-  | .assertMd sh => nd.succs.all (fun s => cover (C.k s) m (fun g' => g' &&& (m >>> sh) != 0 || imp g' gs))
+  | .assertMd sh => nd.succs.all (fun s => cover (C.k s) m (fun g' => g' &&& ((m >>> sh) &&& 4294967295) != 0 || imp g' gs))
   | .modeGuard v eq => !((m == v) == eq) || nd.succs.all (fun s => cover (C.k s) m (fun g' => imp g' gs))
+  | .modeTest k v eq => !(((m &&& k) == v) == eq) || nd.succs.all (fun s => cover (C.k s) m (fun g' => imp g' gs))
   | .havoc => nd.succs.all (fun s => cover (C.k s) m (fun _ => false))
   | .call g m0 => cover (C.k (G.fnEntry g)) m0 (fun g' => imp g' gs) &&
       nd.succs.all (fun s => cover (C.k s) m (fun g' => (C.isPure g && imp g' gs) || imp g' (C.fpost g)))
